@@ -328,6 +328,52 @@ def run(tier, seed):
       return None
     return w, name
 
+  # ---- wrappers over an experimenter that marks a REGION infeasible: whatever the wrapper does with the point, the trial it hands
+  # back is infeasible exactly when the wrapped experimenter marks the corresponding base point infeasible, and a trial that is
+  # not infeasible carries finite numbers for all its metrics
+  try:
+    for wi in range(10 if quick else 60):
+      inner_ = nu.NumpyExperimenter(bbob.Sphere, bbob.DefaultBBOBProblemStatement(2))
+      lo_ = r.choice([0.0, 0.3, 0.5, 0.75])          # the interval is given in the unit scale of the parameter
+      region_ = ie.ParamRegionInfeasibleExperimenter(inner_, 'x0', infeasible_interval=(lo_, lo_ + r.choice([0.1, 0.25])))
+      wkind = ['hypercube', 'discretize', 'discretize_str', 'shift', 'flip', 'permute'][wi % 6]
+      if wkind == 'hypercube':
+        w_ = ne.HyperCubeExperimenter(region_)
+        to_base = lambda p_: {'x%d' % i_: -5.0 + 10.0 * float(p_['h%d' % i_]) for i_ in range(2)}
+      elif wkind in ('discretize', 'discretize_str', 'permute'):
+        w_ = de.DiscretizingExperimenter.create_with_grid(region_, {'x0': 9, 'x1': 3}, convert_to_str=(wkind == 'discretize_str'))
+        to_base = lambda p_: {k_: float(v_) for k_, v_ in p_.items()}
+        if wkind == 'permute':
+          d_ = w_
+          w_ = pe.PermutingExperimenter(d_, ['x0', 'x1'], seed=r.randrange(100))
+          to_base = lambda p_, w__=w_: {k_: float(w__._parameter_permutation_dict[k_][v_]) for k_, v_ in p_.items()}
+      elif wkind == 'shift':
+        sh_ = np.array([r.uniform(-1.0, 1.0), 0.0])
+        w_ = sh.ShiftingExperimenter(region_, shift=sh_)
+        to_base = lambda p_, sh__=sh_: {'x0': float(p_['x0']) - sh__[0], 'x1': float(p_['x1']) - sh__[1]}
+      else:
+        w_ = sf.SignFlipExperimenter(region_)
+        to_base = lambda p_: dict(p_)
+      rep.count('infeasible_region_under_' + wkind)
+      n_inf = 0
+      for p_ in sample(w_.problem_statement(), 12):
+        t_ = evalv(w_, p_)
+        tb_ = evalv(region_, to_base(p_))
+        n_inf += bool(tb_.infeasible)
+        obj_ = {'wrapper': wkind, 'infeasible_region_x0': [lo_], 'point': {k_: (v_ if isinstance(v_, str) else float(v_)) for k_, v_ in p_.items()},
+                'base_point': to_base(p_), 'base_infeasible': bool(tb_.infeasible), 'wrapper_infeasible': bool(t_.infeasible),
+                'wrapper_metrics': None if t_.final_measurement is None else {k_: repr(v_.value) for k_, v_ in t_.final_measurement.metrics.items()}}
+        if bool(t_.infeasible) != bool(tb_.infeasible):
+          viol('%s over an experimenter with an infeasible region: the trial comes back %s although the wrapped experimenter marks the '
+               'corresponding point %s' % (wkind, 'infeasible' if t_.infeasible else 'feasible', 'infeasible' if tb_.infeasible else 'feasible'), obj_)
+          break
+        if not t_.infeasible and (t_.final_measurement is None or any(not np.isfinite(v_.value) for v_ in t_.final_measurement.metrics.values())):
+          viol('%s over an experimenter with an infeasible region: a trial that is not marked infeasible carries no finite metric value' % wkind, obj_)
+          break
+      rep.case({'infeasible_region_under': wkind, 'infeasible_points': n_inf}, n_inf > 0)
+  except ImportError:
+    pass
+
   KINDS = ['flip', 'shift', 'discretize', 'permute', 'hypercube', 'normalize', 'noisy', 'sparse', 'hash_infeasible']
   nbase = 14 if quick else 150
   for it in range(nbase):
